@@ -157,4 +157,81 @@ PROPS = {
         "assumptions": ["harness trait implementations follow the trait contracts"],
         "trusted_base": COMMON_TB + ["modelled, not verified: state_machine.rs perform_update_check attempt loop, do_omaha_request_and_update_context, randomize"],
     },
+    "C13": {
+        "run": ["EvalC13"], "functional": True,
+        "n": {"quick": 500, "thorough": 3000},
+        "level_text": "Generator part.  Model/Gen.v transcribes async_generator.rs (generate, Yield::yield_/yield_all, Generator::poll_next, FusedStream) over a protocol-level "
+                      "transcription of futures-channel 0.3.34 mpsc::channel(0) (park on every send, flush ready iff unparked, receive = pop + unpark + wake, AtomicWaker recv_task, "
+                      "close on last sender drop) and of futures-util Send/SendAll/Fuse.  Theorems for ALL programs (lists of Yield/YieldAll/SelfWake/Wait k/DropHandle + return) and ALL "
+                      "schedules (lists of Poll/Complete k), unbounded: C13_order_exactly_once (results = Pending/Yielded prefix whose values are a prefix of the emissions in order; "
+                      "then all of them, exactly one Complete r, then None forever), C13_back_pressure + C13_done_log_exact (when Yielded x is returned the pc is still at the emitting "
+                      "operation and no operation from it on has finished in this or an earlier poll), C13_no_lost_wakeup (every delivery wakes; a Pending poll either woke the root waker "
+                      "or left the task parked on an uncompleted Wait whose completion wakes it), C13_liveness_bound / C13_liveness_progress (a consumer polling only when entitled needs "
+                      "at most items+SelfWakes+Waits+3 polls, bound attained; an idle consumer whose awaited events are all completed has received the completion), "
+                      "C13_monitor_accepts_model.  Tied to the code by running the same programs on the real generate() through an async interpreter, polled by hand with a counting root waker.",
+        "level_note": "Proved for the model, unbounded.  Model = code is sampled (quick: ~500 random programs of length <= 30 x 4 schedules; thorough adds all programs of length <= 4 over "
+                      "5 operations x all schedules of length <= 8).  The futures-channel model is hand-written from its source (third party); real wakers and memory ordering are runtime.  "
+                      "The state-machine clauses of C13 (progress before outcome, APoll boundaries) are in the SM model, not in this check.",
+        "diff_meaning": "The theorems of Props/C13.v hold of the model's observation list (poll results, wake flags, finished-operation log, parked-on event, is_terminated); "
+                        "code 1: the real generator's observations differ from the model's on this program/schedule; code 2: they violate the executable monitor of "
+                        "order / exactly-once / back-pressure / no-lost-wake-up (proved to accept every model run).",
+        "rule": "10 fixed shapes; n random programs (length 0..30, per-program operation weights, items 0..49, events 0..3) x 4 schedules each: executor (poll when entitled, complete the "
+                "awaited event when idle; always runs to None), executor with unsolicited early completions, two random Poll/Complete mixes; thorough adds 781 programs x 256 schedules "
+                "exhaustively.  distinct = distinct (program, return, schedule); non-trivial = at least one Yielded or the Complete was observed.",
+        "exhaustive": {"thorough": True},
+        "assumptions": ["the harness's Wait/SelfWake futures and counting root waker follow the std::task contract",
+                        "futures-channel 0.3.34 / futures-util 0.3.34 as locked in /repo/Cargo.lock"],
+        "trusted_base": COMMON_TB + ["modelled, not verified: omaha-client/src/async_generator.rs; futures-channel mpsc (bounded), futures-util sink::Send/SendAll, future::Fuse, AtomicWaker"],
+    },
+    "C16": {
+        "run": ["EvalC16"],
+        "n": {"quick": 300, "thorough": 6000},
+        "level_text": "The response parser is modelled as Model/Json.v (bytes -> JSON tree, iterative with an explicit stack) followed by Model/Response.v "
+                      "(tree -> Response with serde's derive rules: required vs Option fields, null -> None, duplicate field -> error, unknown keys ignored by plain "
+                      "structs and collected by the four #[serde(flatten)] structs, struct-from-sequence, field_identifier statuses, u32/u64 bounds, serde_json's 128 "
+                      "recursion limit for kept values and none for ignored ones, one XSSI prefix).  Theorems for all byte strings / all documents: C16_total, "
+                      "C16_stack_bounded_by_input + C16_no_fuel_error (every loop iteration consumes input; the stack never exceeds the input length; fuel is never the "
+                      "reason for an error), C16_kept_values_within_limit, C16_prefix/_removed/_no_prefix/_only_one_prefix, C16_json_roundtrip (parse(print j) = j for every "
+                      "well-formed tree), C16_roundtrip (parse_response(print_doc d) = Some d field for field, for every well-formed abstract document, with or without the "
+                      "prefix), C16_status (unknown strings preserved as Error), C16_full_urls (membership, length, codebase-major index), C16_required_* (for ANY object: "
+                      "deleting a required key or giving it a refused value makes the struct's decoder fail; per struct), C16_size_is_u64.  Tied to the code by running the "
+                      "real parse_json_response on every case and comparing the converted Response with the model's inside Coq.",
+        "level_note": "Proved for the model, unbounded.  Model = code is sampled (grammar documents + mutation streams + fixed limit probes).  Not modelled: the f64 "
+                      "overflow check of serde_json for floats kept in extension attributes (cases whose model result keeps a float accept an Err from the code); stack usage "
+                      "and panic-freedom of serde_json itself are runtime facts, exercised on a 256 KiB stack (deep cases first in a child process) under catch_unwind.  "
+                      "Extension maps are BTreeMaps in the code (sorted, last duplicate wins) and document-ordered lists in the model; both sides are canonicalised before comparison.",
+        "diff_meaning": "code 1: parse_json_response returned something else than the model (which is proved total and faithful) on this input: a well-formed document "
+                        "decoded differently, or an accept/reject difference; code 2: the real parser panicked or overflowed its stack on this input.",
+        "rule": "fixed: recursion-limit probes at 127-lvl-1..+2 nesting for each of the four kept positions (arrays and objects), 127..5000-deep nesting in ignored "
+                "positions, 1..5000 unclosed brackets at top/ignored/kept positions, 2,000,000 unclosed brackets (totality only), 46 hand-written rule probes; "
+                "n grammar documents from an independent generator (0-4 apps/urls/actions/packages, every optional field absent/null/empty/present, known and unknown "
+                "statuses, sizes around 2^32, 2^63, 2^64, extension attributes of every JSON type, unknown keys in plain structs, array form of plain structs, shuffled keys, "
+                "random white space, \\u escapes incl. surrogate pairs, XSSI prefix on every third); truncation at every position of 2 small documents (thorough: 12, plus "
+                "every single-bit flip of 3); ~4 mutations per document: required field removed, duplicated key, wrong type, null for required, nesting around and far beyond "
+                "the limit in kept/ignored/typed positions, invalid UTF-8 and lone surrogates in kept vs ignored values and in keys, number variants (floats, -0, 2^32, 2^64, "
+                "negatives), array forms of right/wrong length; bit flips, truncation, byte insert/delete/replace/swap, BOM, trailing garbage/white space, 7 XSSI variants; "
+                "random bytes and random JSON-alphabet strings.  distinct = distinct input bytes; non-trivial = the code returned Ok (or crashed).",
+        "assumptions": ["serde_json default features (BTreeMap maps, no arbitrary_precision, no unbounded_depth), as locked in /repo/Cargo.lock",
+                        "Ping.status is private: read from the Debug rendering of Ping"],
+        "trusted_base": COMMON_TB + ["modelled, not verified: omaha-client/src/protocol/response.rs (serde derives, parse_json_response, parse_safe_json, "
+                                     "get_all_full_urls), protocol.rs (Cohort), serde_derive's generated visitors, serde's private Content/FlatMapDeserializer, "
+                                     "serde_json's Deserializer (parse_str, ignore_value, number scanning, recursion limit)"],
+    },
+    "C02": {
+        "run": ["EvalProps"], "functional": False,
+        "n": {"quick": 300, "thorough": 3000},
+        "level_text": "Theorem C02_auth_monitor_accepts_every_model_trace: for every script, configuration and entry point the model's trace is accepted by the executable "
+                      "monitor step2: after a response that fails authentication, as an update-check attempt there is no retry, no report, no installer call, no server-response "
+                      "event, the result is the validation error with failure reason Internal, last-contact and the apps' cohort/user-counting data shown to the policy afterwards "
+                      "are unchanged; as an event report the lost event is recorded before anything else; as a ping no last-contact announcement follows.  Poll-interval inertness is "
+                      "C07's monitor.  The model is tied to the code by trace equality on scripted runs with the REAL StandardCupv2Handler and harness-signed/forged ETags "
+                      "(unsigned, bad signature, other key, body tampered after signing, replay of an earlier genuine response); the monitor runs on every implementation trace.",
+        "level_note": "Proved for the model (the model takes the verifier's verdict as an input bit per response; the harness produces that verdict with real keys).  "
+                      "'Changes nothing else' for event reports and pings is covered by trace equality with the model, in which a forged response and a transport error differ only in the error kind.",
+        "diff_meaning": "The authentication monitor rejects the implementation's trace (code 2), or the projection (everything except timers and replies) differs from the model's.",
+        "rule": "random scripted environments with CUP on, 45% of responses failing authentication in 5 ways at every request kind, combined with X-Retry-After, update offers, cohorts, non-2xx statuses; "
+                "distinct = distinct implementation trace; non-trivial = at least one request",
+        "assumptions": ["harness trait implementations follow the trait contracts", "p256/sha2 crates implement ECDSA/SHA-256"],
+        "trusted_base": COMMON_TB + ["modelled, not verified: state_machine.rs; the verifier itself is C01's model"],
+    },
 }
